@@ -110,6 +110,13 @@ def all_corruptions(base: dict, g):
     cases.append(("missing:version", ("delsec", "version", None, None)))
     cases.append(("loads:too-few", ("set", "loads", "ground_loads", [1.0] * 100)))
     cases.append(("loads:not-numbers", ("set", "loads", "ground_loads", ["a"] * 8760)))
+    # one bad item in an otherwise intact series (JSON booleans are not numbers, although Python's bool is an int)
+    gl0 = list(base["loads"]["ground_loads"])
+    for tag, bad_item, pos in (("bool-true", True, 0), ("bool-false", False, 4380), ("string", "12.5", 8759), ("null", None, 17), ("list", [1.0], 3000)):
+        gl1 = list(gl0)
+        gl1[pos] = bad_item
+        cases.append((f"loads:one-{tag}-item", ("set", "loads", "ground_loads", gl1)))
+    cases.append(("loads:one-item-short", ("set", "loads", "ground_loads", gl0[:-1])))
     cases.append(("loads:missing-ground-loads", ("del", "loads", "ground_loads", None)))
     # valid variants: letter case of the five documented names, optional keys
     for sec, key in (("fluid", "fluid_name"), ("pipe", "arrangement"), ("geometric_constraints", "method"), ("design", "flow_type")):
